@@ -15,6 +15,20 @@
 (* starts from cfg: the macros of the input being evaluated do not reach   *)
 (* it (its code is cached, so they would outlive that input).              *)
 (*                                                                         *)
+(* Two passes.  The grammar guards most alternatives with a look-ahead of  *)
+(* the same text (&X X), and the code emitted by an alternative that fails *)
+(* after its guard succeeded is not taken back: the guard and the real     *)
+(* parse must make the same thing of every item.  Predicates run in both   *)
+(* passes, actions only in the real one.  gcfg is the configuration the    *)
+(* guard of the enclosing expression sees:                                 *)
+(*   - the switches of an st value are set by predicates (repaired;        *)
+(*     GuardSeesSwitches = FALSE is the grammar as it was: an action);     *)
+(*   - a macro line is an action.  At statement position that is harmless  *)
+(*     (the next guard starts after it).  Inside a template block in the   *)
+(*     middle of an expression (MacroInHole) the guard of that expression  *)
+(*     has parsed the rest under the old flags: a known defect of the      *)
+(*     code, outside the configurations that must hold (HoleMacros).       *)
+(*                                                                         *)
 (* One input is a sequence of items (one per line); the machine records    *)
 (* for each item what the published grammar makes of it under the flags    *)
 (* in force:                                                               *)
@@ -42,20 +56,25 @@ NDiceForms == <<[s |-> "d", idlike |-> TRUE], [s |-> "2d", idlike |-> FALSE], [s
 
 FlagSets == [fam : [Fam -> BOOLEAN], noStmts : BOOLEAN, noNDice : BOOLEAN, noBit : BOOLEAN]
 
+CONSTANTS GuardSeesSwitches,   \* the look-ahead pass sees the switches of an st value (TRUE: the code; FALSE: as it was)
+          HoleMacros           \* macro lines inside template blocks in the middle of an expression are part of the behaviours
+
 VARIABLES cfg,    \* the VM's configuration
           pcfg,   \* the parser's copy while an input is being parsed
           phase,  \* "idle" | "parse" | "stopped"
           cur,    \* items of the input being parsed, with what became of each
           macros, \* families switched on by a macro earlier in this input
-          runs    \* finished inputs of this VM
-vars == <<cfg, pcfg, phase, cur, macros, runs>>
+          runs,   \* finished inputs of this VM
+          gcfg    \* what the guard (look-ahead) of the expression being parsed sees
+vars == <<cfg, pcfg, phase, cur, macros, runs, gcfg>>
 
 Init == /\ cfg \in FlagSets
-        /\ pcfg = cfg /\ phase = "idle" /\ cur = <<>> /\ macros = {} /\ runs = <<>>
+        /\ pcfg = cfg /\ phase = "idle" /\ cur = <<>> /\ macros = {} /\ runs = <<>> /\ gcfg = cfg
 
 Begin == /\ phase = "idle"
          /\ pcfg' = cfg                      \* the copy
          /\ phase' = "parse" /\ cur' = <<>> /\ macros' = {}
+         /\ gcfg' = cfg
          /\ UNCHANGED <<cfg, runs>>
 
 Put(item, becomes) ==
@@ -66,65 +85,82 @@ Put(item, becomes) ==
 Macro(f, on) == /\ phase = "parse"
                 /\ pcfg' = [pcfg EXCEPT !.fam[f] = on]
                 /\ macros' = IF on THEN macros \cup {f} ELSE macros
-                /\ Put([t |-> "macro", f |-> f, on |-> on], "macro")
+                /\ Put([t |-> "macro", f |-> f, on |-> on, guard |-> "macro"], "macro")
+                /\ gcfg' = pcfg'                \* statement position: the next guard starts after the line
                 /\ UNCHANGED <<cfg, runs>>
+
+\* the same line inside a template block in the middle of an expression: the guard of the expression does not see it
+MacroInHole(f, on) == /\ HoleMacros /\ phase = "parse"
+                      /\ pcfg' = [pcfg EXCEPT !.fam[f] = on]
+                      /\ macros' = IF on THEN macros \cup {f} ELSE macros
+                      /\ Put([t |-> "macro", f |-> f, on |-> on, guard |-> "macro"], "macro")
+                      /\ UNCHANGED <<cfg, runs, gcfg>>
+\* the expression ends: the next statement is guarded afresh
+NextStmt == /\ phase = "parse" /\ gcfg # pcfg
+            /\ gcfg' = pcfg
+            /\ UNCHANGED <<cfg, pcfg, phase, cur, macros, runs>>
 
 UseOutcome(flags, f, form) == IF flags.fam[f] THEN "dice" ELSE IF form.idlike THEN "ident" ELSE "stop"
 NDiceOutcome(flags, form) == IF ~flags.noNDice THEN "dice" ELSE IF form.idlike THEN "ident" ELSE "stop"
 
 Use(f, i) == /\ phase = "parse"
-             /\ Put([t |-> "use", f |-> f, s |-> Forms[f][i].s], UseOutcome(pcfg, f, Forms[f][i]))
-             /\ UNCHANGED <<cfg, pcfg, macros, runs>>
+             /\ Put([t |-> "use", f |-> f, s |-> Forms[f][i].s, guard |-> UseOutcome(gcfg, f, Forms[f][i])], UseOutcome(pcfg, f, Forms[f][i]))
+             /\ UNCHANGED <<cfg, pcfg, macros, runs, gcfg>>
 
 Stmt(k) == /\ phase = "parse"
-           /\ Put([t |-> "stmt", kind |-> k], IF pcfg.noStmts THEN "error" ELSE "stmt")
-           /\ UNCHANGED <<cfg, pcfg, macros, runs>>
+           /\ Put([t |-> "stmt", kind |-> k, guard |-> IF gcfg.noStmts THEN "error" ELSE "stmt"], IF pcfg.noStmts THEN "error" ELSE "stmt")
+           /\ UNCHANGED <<cfg, pcfg, macros, runs, gcfg>>
 
 NDice(i) == /\ phase = "parse"
-            /\ Put([t |-> "ndice", s |-> NDiceForms[i].s], NDiceOutcome(pcfg, NDiceForms[i]))
-            /\ UNCHANGED <<cfg, pcfg, macros, runs>>
+            /\ Put([t |-> "ndice", s |-> NDiceForms[i].s, guard |-> NDiceOutcome(gcfg, NDiceForms[i])], NDiceOutcome(pcfg, NDiceForms[i]))
+            /\ UNCHANGED <<cfg, pcfg, macros, runs, gcfg>>
 
 Bitwise == /\ phase = "parse"
-           /\ Put([t |-> "bit"], IF pcfg.noBit THEN "stop" ELSE "op")
-           /\ UNCHANGED <<cfg, pcfg, macros, runs>>
+           /\ Put([t |-> "bit", guard |-> IF gcfg.noBit THEN "stop" ELSE "op"], IF pcfg.noBit THEN "stop" ELSE "op")
+           /\ UNCHANGED <<cfg, pcfg, macros, runs, gcfg>>
 
 \* an st command value: flags saved, the three switches turned off unless the value is parenthesised, restored after
 EstFlags(flags, paren) == IF paren THEN flags ELSE [flags EXCEPT !.noStmts = TRUE, !.noNDice = TRUE, !.noBit = TRUE]
+\* ... and what the guards of the st alternatives see of that
+EstGuard(flags, paren) == IF GuardSeesSwitches THEN EstFlags(flags, paren) ELSE flags
 
 StUse(paren, f, i) ==
   /\ phase = "parse" /\ cur = <<>>           \* an st command is the whole input
-  /\ Put([t |-> "st", paren |-> paren, inner |-> "use", f |-> f, s |-> Forms[f][i].s], UseOutcome(EstFlags(pcfg, paren), f, Forms[f][i]))
+  /\ Put([t |-> "st", paren |-> paren, inner |-> "use", f |-> f, s |-> Forms[f][i].s, guard |-> UseOutcome(EstGuard(gcfg, paren), f, Forms[f][i])],
+         UseOutcome(EstFlags(pcfg, paren), f, Forms[f][i]))
   /\ phase' = "stopped"
-  /\ UNCHANGED <<cfg, pcfg, macros, runs>>  \* pcfg restored
+  /\ UNCHANGED <<cfg, pcfg, macros, runs, gcfg>>  \* pcfg restored
 StNDice(paren, i) ==
   /\ phase = "parse" /\ cur = <<>>
-  /\ Put([t |-> "st", paren |-> paren, inner |-> "ndice", s |-> NDiceForms[i].s], NDiceOutcome(EstFlags(pcfg, paren), NDiceForms[i]))
+  /\ Put([t |-> "st", paren |-> paren, inner |-> "ndice", s |-> NDiceForms[i].s, guard |-> NDiceOutcome(EstGuard(gcfg, paren), NDiceForms[i])],
+         NDiceOutcome(EstFlags(pcfg, paren), NDiceForms[i]))
   /\ phase' = "stopped"
-  /\ UNCHANGED <<cfg, pcfg, macros, runs>>
+  /\ UNCHANGED <<cfg, pcfg, macros, runs, gcfg>>
 StBitwise(paren) ==
   /\ phase = "parse" /\ cur = <<>>
-  /\ Put([t |-> "st", paren |-> paren, inner |-> "bit"], IF EstFlags(pcfg, paren).noBit THEN "stop" ELSE "op")
+  /\ Put([t |-> "st", paren |-> paren, inner |-> "bit", guard |-> IF EstGuard(gcfg, paren).noBit THEN "stop" ELSE "op"], IF EstFlags(pcfg, paren).noBit THEN "stop" ELSE "op")
   /\ phase' = "stopped"
-  /\ UNCHANGED <<cfg, pcfg, macros, runs>>
+  /\ UNCHANGED <<cfg, pcfg, macros, runs, gcfg>>
 
 \* the input loads a host-created computed value whose text is the spelling: compiled lazily, from cfg
 Lazy(f, i) == /\ phase = "parse" /\ Forms[f][i].idlike
-              /\ Put([t |-> "lazy", f |-> f, s |-> Forms[f][i].s], UseOutcome(cfg, f, Forms[f][i]))
-              /\ UNCHANGED <<cfg, pcfg, macros, runs>>
+              /\ Put([t |-> "lazy", f |-> f, s |-> Forms[f][i].s, guard |-> UseOutcome(cfg, f, Forms[f][i])], UseOutcome(cfg, f, Forms[f][i]))
+              /\ UNCHANGED <<cfg, pcfg, macros, runs, gcfg>>
 
 \* the host evaluates a text with RunExpr between inputs: an input of its own, compiled from cfg
 RunExpr(f, i) == /\ phase = "idle" /\ Forms[f][i].idlike
                  /\ runs' = Append(runs, <<[t |-> "runexpr", f |-> f, s |-> Forms[f][i].s, as |-> UseOutcome(cfg, f, Forms[f][i])]>>)
-                 /\ UNCHANGED <<cfg, pcfg, phase, cur, macros>>
+                 /\ UNCHANGED <<cfg, pcfg, phase, cur, macros, gcfg>>
 
 End == /\ phase \in {"parse", "stopped"}
        /\ runs' = Append(runs, cur)
        /\ phase' = "idle" /\ cur' = <<>> /\ macros' = {}
        /\ pcfg' = cfg                        \* the copy is discarded
+       /\ gcfg' = cfg
        /\ UNCHANGED cfg
 
-Next == \/ Begin \/ End
-        \/ \E f \in Fam, on \in BOOLEAN : Macro(f, on)
+Next == \/ Begin \/ End \/ NextStmt
+        \/ \E f \in Fam, on \in BOOLEAN : Macro(f, on) \/ MacroInHole(f, on)
         \/ \E f \in Fam : \E i \in 1..Len(Forms[f]) : Use(f, i) \/ Lazy(f, i) \/ RunExpr(f, i)
         \/ \E k \in StmtKinds : Stmt(k)
         \/ \E i \in 1..Len(NDiceForms) : NDice(i)
@@ -154,6 +190,8 @@ BitGated   == cfg.noBit => \A i \in 1..Len(cur) : cur[i].as # "op"
 \* what the parser's copy may differ in: only families, and only through macros of this input
 CopyDiffers == /\ pcfg.noStmts = cfg.noStmts /\ pcfg.noNDice = cfg.noNDice /\ pcfg.noBit = cfg.noBit
                /\ \A f \in Fam : (pcfg.fam[f] /\ ~cfg.fam[f]) => f \in macros
+\* the guard and the real parse make the same thing of every item (else code emitted by an abandoned alternative stays in the program)
+GuardAgrees == \A i \in 1..Len(cur) : cur[i].guard = cur[i].as
 \* a macro is over when its input is over
 MacroScoped == phase = "idle" => pcfg = cfg /\ macros = {}
 \* the configuration of the VM never changes
